@@ -814,7 +814,7 @@ def vec_ref(I, r):
             return r
 
 
-@reg('Vec::extend', 'Extend::extend')
+@reg('Vec::extend', 'Extend::extend', 'String::extend')
 def _vec_extend(I, a, ci, dt):
     tgt = I.load(a[0])
     items = collect_iter(I, a[1])
@@ -824,6 +824,19 @@ def _vec_extend(I, a, ci, dt):
     if isinstance(tgt, MapVal):
         for kv in items:
             map_insert(I, a[0], kv.f[0], kv.f[1])
+        return UNIT
+    if isinstance(tgt, SString):
+        # String: Extend<char> / Extend<&str> / Extend<String>
+        from .strmodels import encode_cp
+        b = list(tgt.b)
+        for it in items:
+            while isinstance(it, Ref):
+                it = I.load(it)
+            if isinstance(it, (SStr, SString)):
+                b.extend(it.b)
+            else:
+                b.extend(encode_cp(it))
+        I.store(a[0], SString(tuple(b), tgt.alloc))
         return UNIT
     raise Unmodelled('extend on %r' % (tgt,))
 
